@@ -233,6 +233,9 @@ impl Prop for C16 {
         vec!["features the importer documents as unsupported (EXCEPTPGNET, non-zero SPACING, ITERATE, vias) are outside the claim".into(),
              "multiple ports of a pin are merged per layer (documented); shape order within a layer is the LEF order".into()]
     }
+    fn miri_gen(&self) -> Option<&'static str> {
+        Some("import")
+    }
     fn plan(&self, tier: Tier) -> Vec<GenSpec> {
         vec![GenSpec::random("import", tier.pick(20_000, 2_000_000)), GenSpec::random("fractional", tier.pick(5_000, 400_000))]
     }
